@@ -125,7 +125,7 @@ def mtimes():
     return st.one_of(st.sampled_from([0, 1, 0x7FFFFFFF, 0x80000000, 0xFFFFFFFF, 1234567890]), st.integers(0, 0xFFFFFFFF))
 
 
-def xattr_sets(max_keys=4, prefixes=(b"user.", b"trusted.", b"security.")):
+def xattr_sets(max_keys=4, prefixes=(b"user.", b"trusted.", b"security."), allow_empty=False):
     key = st.tuples(st.sampled_from(list(prefixes)),
                     st.lists(st.sampled_from(list(b"abcXYZ09._-")), min_size=1, max_size=10).map(bytes)).map(lambda t: t[0] + t[1])
     val = st.one_of(
@@ -134,6 +134,9 @@ def xattr_sets(max_keys=4, prefixes=(b"user.", b"trusted.", b"security.")):
         # lengths around the points where a PAX record length gains a digit (100, 1000) and around 8 / 256 byte limits
         st.tuples(st.one_of(st.integers(55, 100), st.integers(940, 1000), st.sampled_from([7, 8, 9, 255, 256, 257])), st.integers(33, 126)).map(lambda t: bytes([t[1]]) * t[0]),
     )
+    if allow_empty:
+        # an attribute may exist with an empty value (a marker)
+        val = st.one_of(val, val, val, st.just(b""))
     return st.dictionaries(key, val, max_size=max_keys)
 
 
@@ -211,7 +214,7 @@ def trees(draw, max_nodes=18, mode="dir", want_xattrs=True, want_special=True, w
             pf = (b"user.", b"trusted.", b"security.")
             if mode == "dir" and t not in ("file", "dir"):
                 pf = (b"trusted.", b"security.")  # the kernel refuses user.* on symlinks and special files
-            node["xattrs"] = draw(xattr_sets(prefixes=pf))
+            node["xattrs"] = draw(xattr_sets(prefixes=pf, allow_empty=True))
         used.add(path)
         nodes.append(node)
     return nodes
